@@ -22,8 +22,9 @@ def gens(rnd: random.Random, n: int, salt: int):
         t = purity.rand_tree(rnd, rnd.choice([4, 8, 14]), with_tfy=False)
         steps = []
         for _ in range(rnd.randint(2, 9)):
-            steps.append({"op": rnd.choice(["append", "append", "insert0", "share", "pop", "clear", "rename", "toggle", "setattr",
-                                            "setattr", "delattr", "relist", "copy", "deepcopy", "tagify", "ro", "ro"]),
+            steps.append({"op": rnd.choice(["append", "append", "insert0", "insert", "setitem", "extend2", "share", "pop", "clear", "rename",
+                                            "toggle", "setattr", "setattr", "update", "update", "delattr", "relist", "copy", "deepcopy",
+                                            "tagify", "ro", "ro"]),
                           "pick": rnd.randrange(1000), "pick2": rnd.randrange(1000), "val": rnd.randrange(1000)})
         out.append({"kind": "objhist", "tree": t, "steps": steps, "seed": salt * 100003 + j})
     return out
@@ -101,8 +102,13 @@ def execute(g, H):
         a = {"act": "ro", "obj": 0, "i": 0, "s": "", "ref": {"r": "str", "v": "", "n": 0}}
         exc = "none"
         try:
-            if op in ("append", "insert0") and lists:
+            if op in ("append", "insert0", "insert", "setitem", "extend2") and lists:
                 L = lists[st["pick"] % len(lists)]
+                # the operation is called on the list itself or on a tag that owns it (Tag.append / extend / insert delegate)
+                owners = [t for t in tags if heap[t - 1]["k"] == L]
+                via_tag = bool(owners) and st["pick2"] % 2 == 1 and op != "setitem"
+                target = owners[0] if via_tag else L
+                recv = p.keep[target - 1]
                 kind = st["val"] % 3
                 if kind == 0:
                     val, ref = "t%d <&>" % st["val"], {"r": "str", "v": "t%d <&>" % st["val"], "n": 0}
@@ -111,8 +117,26 @@ def execute(g, H):
                 else:
                     nm = NAMES[st["val"] % len(NAMES)]
                     val, ref = H.Tag(nm), {"r": "newtag", "v": nm, "n": 0}
-                a.update(act=op, obj=L, ref=ref)
-                (p.keep[L - 1].append if op == "append" else lambda v: p.keep[L - 1].insert(0, v))(val)
+                n_ = len(heap[L - 1]["items"])
+                if op == "setitem" and n_ == 0:
+                    op = "append"
+                a.update(act=op, obj=target, ref=ref)
+                if op == "append":
+                    recv.append(val)
+                elif op == "insert0":
+                    recv.insert(0, val)
+                elif op == "insert":
+                    i = (st["pick2"] // 2) % (n_ + 1)
+                    a.update(i=i + 1)
+                    recv.insert(i, val)
+                elif op == "setitem":
+                    i = (st["pick2"] // 2) % n_
+                    a.update(i=i + 1)
+                    recv[i] = val
+                else:
+                    s2 = "e%d" % st["pick2"]
+                    a.update(s=s2)
+                    recv.extend([val, [None, s2]])
             elif op == "share" and lists and tags:
                 L = lists[st["pick"] % len(lists)]
                 cands = [t for t in tags if L not in _reach(heap, t)]
@@ -146,6 +170,24 @@ def execute(g, H):
                 ks = [it["v"].split("=", 1)[0] for it in heap[A - 1]["items"]]
                 a.update(act="setattr", obj=A, s=f"{k}={v}", i=(ks.index(k) + 1 if k in ks else 0))
                 p.keep[A - 1][k] = v
+            elif op == "update" and amaps:
+                A = amaps[st["pick"] % len(amaps)]
+                raw = ["data_k", "class_", "title", "aria_label_", "lang"][st["val"] % 5]
+                pool = ["u1", True, 7, None, False, "", 2.5, "x y"]
+                v1, v2 = pool[st["pick2"] % len(pool)], pool[(st["pick2"] // 8) % len(pool)]
+                two = (st["val"] // 5) % 2 == 1
+                # the rule of C15, from the arguments alone: one trailing underscore removed, the others hyphens; None / False
+                # dropped, True as "", numbers as text; the values for one name in one call joined by single spaces
+                name = (raw[:-1] if raw.endswith("_") else raw).replace("_", "-")
+                texts = ["" if v is True else str(v) for v in ([v1, v2] if two else [v1]) if v is not None and v is not False]
+                ks = [it["v"].split("=", 1)[0] for it in heap[A - 1]["items"]]
+                a.update(act="update", obj=A, s=(f"{name}={' '.join(texts)}" if texts else ""), i=(ks.index(name) + 1 if name in ks else 0))
+                if two:
+                    p.keep[A - 1].update({raw: v1}, **{raw: v2})
+                elif st["val"] % 2:
+                    p.keep[A - 1].update(**{raw: v1})
+                else:
+                    p.keep[A - 1].update({raw: v1})
             elif op == "delattr" and amaps:
                 A = amaps[st["pick"] % len(amaps)]
                 ks = [it["v"].split("=", 1)[0] for it in heap[A - 1]["items"] if it["r"] == "kv"]
